@@ -675,10 +675,19 @@ def gen_oids(ctx: Ctx):
     return out
 
 
+# code points some codec, normaliser or text layer treats specially (byte-order marks, NUL, line separators, non-characters,
+# plane boundaries): a reader must hand every one of them back unchanged, in any position
+SPECIAL_CHARS = ["\ufeff", "\ufffe", "\uffff", "\x00", "\x7f", "\x80", "\x85", "\r", "\n", "\u2028", "\u2029", "\ud7ff", "\ue000", "\U00010000",
+                 "\U0010ffff", "\u00ff", "\u0100", "\u07ff", "\u0800", "\ufffd", "\u200b", "\u0301"]
+
+
 def _rand_str(rng, n):
     pools = [(0x20, 0x7E), (0x80, 0x7FF), (0x800, 0xD7FF), (0xE000, 0xFFFF), (0x10000, 0x10FFFF)]
     s = []
     for _ in range(n):
+        if rng.random() < 0.15:
+            s.append(rng.choice(SPECIAL_CHARS))
+            continue
         lo, hi = rng.choice(pools)
         s.append(chr(rng.randrange(lo, hi + 1)))
     return "".join(s)
@@ -722,6 +731,8 @@ def gen_trees(ctx: Ctx):
     out.append([[[7, None, []], [8, None, []], [7, [2, 0, 1], [[7, None, []]]]], b"\x00"])
     out.append([[[3, None, "\ud800"]], b""])  # lone surrogate: UnicodeEncodeError on both sides
     out.append([[[7, None, [[3, None, "SID"], [3, None, "S-1-5-21-3337337973-3297078028-437386066-512"]]]], b""])
+    for ch in SPECIAL_CHARS:
+        out.append([[[3, None, ch], [3, None, ch + "SID"], [3, [2, 1, 0], "S" + ch + "D"], [7, None, [[3, None, "SI" + ch], [3, None, ch + ch]]]], b""])
     for _ in range(ctx.n(250, 6000)):
         nodes = [rand_node(ctx.rng, ctx.rng.randrange(0, 7), ints) for _ in range(ctx.rng.choice([1, 1, 2, 3]))]
         out.append([nodes, bytes(ctx.rng.getrandbits(8) for _ in range(ctx.rng.choice([0, 0, 1, 4])))])
@@ -734,6 +745,7 @@ MALFORMED_TABLE = [
     "0204ff000000", "02020000", "0202ff80", "0101", "010100", "0101ff", "01020000", "0100", "0c01ff", "0c02c3a9", "0c02c0af", "0c03eda080", "0c00", "0601", "06012a", "0601ff",
     "06022a80", "06032a8001", "06022a00", "0603808001", "060188", "3000", "3080", "30800000", "3003020100", "300402010000", "3003020101ff", "310002", "2500", "3f2400", "1f2400",
     "04820000", "048180" + "00" * 127, "048180" + "00" * 128, "0481" + "7f" + "00" * 127, "04007f", "7f8800020000", "ff7f00", "1e00", "1f1e00", "df1e00", "1f81", "9f8000",
+    "0c03efbbbf", "0c04efbbbf41", "0c06efbbbfefbbbf", "0c03efbfbe", "0c0100", "0c04f4908080", "0c03efbfbf",
     "30060201ff0201", "30820001", "308200", "30", "3001", "300100", "0201ff0201", "02017f020180", "180f32303233303130313030303030305a", "0a0101", "0a00",
 ]
 
